@@ -159,7 +159,7 @@ _add(
         "evaluate_ahb_expression_tree with harness evaluators and through is_valid_expression with the ContentEvaluationResult based evaluators "
         "and a ContextVar setter. Oracle: the structural predicate of the property statement. distinct non-trivial = distinct expression strings"
     ),
-    deciding={"any": {"invalid_expressions": 200, "valid_expressions": 200, "invalid:hint-with-fc": 20, "invalid:neutral-with-rc": 100, "ahb_invalid": 15, "ahb_valid": 15, "is_valid_expression_calls": 30, "neutral_only_expressions": 100, "failed_evaluations_in_between": 50}},
+    deciding={"any": {"invalid_expressions": 200, "valid_expressions": 200, "invalid:hint-with-fc": 20, "invalid:neutral-with-rc": 100, "ahb_invalid": 15, "ahb_valid": 15, "is_valid_expression_calls": 30, "neutral_only_expressions": 100, "failed_evaluations_in_between": 50, "is_valid_expression_calls_with_tree": 10}},
     headline=["valid_expressions", "invalid_expressions", "ahb_valid", "ahb_invalid", "is_valid_expression_calls"],
 )
 
@@ -260,7 +260,7 @@ _add(
         "evaluations with their own data in context-local storage (diagonal log + own baseline); is_valid_expression under yielding evaluators "
         "must show the evaluators exactly the Cartesian product. distinct non-trivial = distinct expressions run under >= 2 distinct release orders"
     ),
-    deciding={"any": {"expressions": 100, "distinct_release_orders": 500, "runs_with_concurrently_parked_awaitables": 300, "exhaustively_enumerated_expressions": 5, "contract_multi:evaluate_conditions": 300, "contract_multi:evaluate_format_constraints": 50, "contract_multi:get_hints": 50, "contract_multi:gather_if_necessary": 100, "isolation_runs": 20, "isolation_events": 200, "validity_runs_with_concurrency": 10, "package_pairing_comparisons": 30}},
+    deciding={"any": {"expressions": 100, "distinct_release_orders": 500, "runs_with_concurrently_parked_awaitables": 300, "exhaustively_enumerated_expressions": 5, "contract_multi:evaluate_conditions": 300, "contract_multi:evaluate_format_constraints": 50, "contract_multi:get_hints": 50, "contract_multi:gather_if_necessary": 100, "isolation_runs": 20, "isolation_events": 200, "validity_runs_with_concurrency": 10, "package_pairing_comparisons": 30, "direct_site_runs": 200, "direct_site_runs_with_contexts": 20}},
     headline=["expressions", "runs", "distinct_release_orders", "exhaustively_enumerated_expressions", "isolation_runs", "validity_runs"],
 )
 
@@ -278,7 +278,7 @@ _add(
         "NotImplementedError iff a visited MUSS/prefix node is UNKNOWN; validate_segment_level on a random sub-tree. distinct non-trivial = "
         "distinct (tree, assignment, flag) with depth >= 3 or pruning"
     ),
-    deciding={"any": {"trees": 100, "nodes_reported": 1500, "trees_with_pruning": 30, "runs_expecting_not_implemented": 3, "segment_level_calls": 50, "runs_with_concurrently_parked_awaitables": 50, "sequence_runs": 50, "runs_with_shipped_evaluators": 30, "trees_with_line_indexes": 50}},
+    deciding={"any": {"trees": 100, "nodes_reported": 1500, "trees_with_pruning": 30, "runs_expecting_not_implemented": 3, "segment_level_calls": 50, "runs_with_concurrently_parked_awaitables": 50, "sequence_runs": 50, "runs_with_shipped_evaluators": 30, "trees_with_line_indexes": 50, "calls_with_explicit_parent_status": 50, "explicit_parent:IS_FORBIDDEN": 5}},
     headline=["trees", "nodes_reported", "nodes_pruned", "runs_expecting_not_implemented", "segment_level_calls"],
 )
 
